@@ -229,3 +229,14 @@ def _fold_generator(gen: FuncInfo, env: dict[str, object], n: int) -> list[objec
         else:
             return None
     return out
+
+_core_run = run
+
+
+def run(ctx: Context) -> None:  # noqa: F811
+    _core_run(ctx)
+    from . import backend
+
+    ctx.rep.rule('C20.R6', 'only failures of the network itself are mapped to ConnectError / ConnectTimeout by the backends (nothing else becomes retryable)')
+    backend.connect_map_keys(ctx, 'C20.R6')
+    ctx.rep.explanation = (ctx.rep.explanation or '') + ' R6 (transport layer): the connect-family exception maps of the real backends have only network failure classes as keys.'
